@@ -54,7 +54,7 @@ func init() {
 			{Kind: "mappartial", TotalRows: -1, DetMaps: r.Bool(), Big: bigOffset(r)}}
 		return ns
 	}
-	reg(&Profile{Name: "c01", NodeHashPct: 4, PForged: 10, Property: "C01", Oracles: []string{"roots"},
+	reg(&Profile{Name: "c01", WidePct: 2, NodeHashPct: 4, PForged: 10, Property: "C01", Oracles: []string{"roots"},
 		Nodes: func(r *Rng) []NodeCfg {
 			ns := allForests(r)
 			ns = append(ns, NodeCfg{Kind: "stump", Big: bigOffset(r)})
@@ -68,7 +68,7 @@ func init() {
 			return ns
 		},
 		MaxBlocks: 40, MaxAdds: 64, PReorg: 6, PSnapCrash: 0, NetFaults: true})
-	reg(&Profile{Name: "c02", PrefixSharePct: 6, PForged: 15, Property: "C02", Oracles: []string{"roots", "prove"},
+	reg(&Profile{Name: "c02", WidePct: 2, PrefixSharePct: 6, PForged: 15, Property: "C02", Oracles: []string{"roots", "prove"},
 		Nodes: func(r *Rng) []NodeCfg {
 			// ... and a forest that starts from bare roots at some block (partial, or full=true)
 			return append(allForests(r), NodeCfg{Kind: "mappartial", TotalRows: -1, FromRoots: 1 + r.Intn(4), FullRoots: r.Pct(30)})
@@ -85,7 +85,7 @@ func init() {
 				{Kind: "mappartial", TotalRows: -1, Relay: "reenc", NoUndo: true, FromRoots: 1 + r.Intn(4), FullRoots: r.Pct(40)}}
 		},
 		MaxBlocks: 30, MaxAdds: 48, PReorg: 3, PCacheOps: 10, NetFaults: true})
-	reg(&Profile{Name: "c06", PForged: 10, Property: "C06", Oracles: []string{"roots", "lookup", "prove", "provable-set", "partial"},
+	reg(&Profile{Name: "c06", WidePct: 3, PForged: 10, Property: "C06", Oracles: []string{"roots", "lookup", "prove", "provable-set", "partial"},
 		Nodes: func(r *Rng) []NodeCfg {
 			return []NodeCfg{{Kind: "pollard"}, {Kind: "mapfull", TotalRows: -1, DetMaps: r.Bool()}, {Kind: "mapfull", TotalRows: 0},
 				mapNode("mapfull", r), {Kind: "mappartial", TotalRows: -1}, mapNode("mappartial", r), {Kind: "mappartial", TotalRows: -1, Big: bigOffset(r)},
@@ -104,7 +104,7 @@ func init() {
 			return []NodeCfg{{Kind: "stump"}, {Kind: "stump", Big: bigOffset(r)}, {Kind: "stump", Big: bigOffset(r)}}
 		},
 		MaxBlocks: 40, MaxAdds: 64, PReorg: 10, NetFaults: true})
-	reg(&Profile{Name: "c09", PForged: 25, Property: "C09", Oracles: []string{"roots", "partial"},
+	reg(&Profile{Name: "c09", WidePct: 2, PForged: 25, Property: "C09", Oracles: []string{"roots", "partial"},
 		Nodes: func(r *Rng) []NodeCfg {
 			ns := []NodeCfg{{Kind: "mappartial", TotalRows: -1, DetMaps: r.Bool()}, {Kind: "mappartial", TotalRows: 0, DetMaps: r.Bool()}, mapNode("mappartial", r),
 				{Kind: "mappartial", TotalRows: -1, DetMaps: r.Bool(), Big: bigOffset(r)}}
@@ -114,7 +114,7 @@ func init() {
 			return ns
 		},
 		MaxBlocks: 30, MaxAdds: 40, PReorg: 15, PCacheOps: 40, NetFaults: true})
-	reg(&Profile{Name: "c10", PrefixSharePct: 6, PForged: 20, Property: "C10", Oracles: []string{"roots", "lookup"},
+	reg(&Profile{Name: "c10", WidePct: 2, PrefixSharePct: 6, PForged: 20, Property: "C10", Oracles: []string{"roots", "lookup"},
 		Nodes: func(r *Rng) []NodeCfg {
 			return []NodeCfg{{Kind: "pollard"}, {Kind: "mapfull", TotalRows: -1, DetMaps: r.Bool()}, {Kind: "mapfull", TotalRows: 0},
 				mapNode("mapfull", r), {Kind: "mappartial", TotalRows: -1}, mapNode("mappartial", r), {Kind: "mappartial", TotalRows: -1, Big: bigOffset(r)}}
@@ -271,6 +271,9 @@ func Generate(p *Profile, seed uint64) *Scenario {
 	if wide && maxBlocks > 8 {
 		maxBlocks = 3 + sw.Intn(6)
 	}
+	if wide && pReorg > 0 && pReorg < 40 {
+		pReorg = 40 // few blocks: make the reorganisation likely to follow a big block
+	}
 
 	chain := []genBlock{{parent: -1, height: 0, post: NewState()}}
 	tip := 0
@@ -394,11 +397,20 @@ func Generate(p *Profile, seed uint64) *Scenario {
 		}
 		// a block
 		dels := genDels(g, st, delBias)
+		if wide && blocksMade >= 1 && g.Pct(40) {
+			// a wide forest: delete everything under one of the highest nodes (half or
+			// a quarter of the biggest trees), so that the other half moves as a whole —
+			// and moves back as a whole when the block is undone
+			dels = genDelsBigSubtree(g, st)
+		}
 		adds := genAdds(g, st, addScale, p.MaxAdds, p.LargePermille)
 		if wide && blocksMade == 0 {
 			// a wide forest from the start: whole-tree and delete-all blocks, proofs and
 			// queries then carry hundreds of targets
 			dels, adds = nil, 300+g.Intn(400)
+			if g.Pct(35) {
+				adds = 1024 + g.Intn(300) // a tree of 1024 leaves: subtrees of row 9 move as a whole
+			}
 		}
 		if justReorged && lastAdds >= 0 && g.Pct(50) {
 			// twin block: right after a branch switch, a block with the same number of
@@ -538,6 +550,42 @@ func genDels(g *Rng, st *State, bias int) []int {
 	if len(out) > 200 {
 		out = out[:200]
 	}
+	return out
+}
+
+// genDelsBigSubtree: all live leaves under one internal node of the top three
+// rows of the forest (no cap: such a block names hundreds of targets).
+func genDelsBigSubtree(g *Rng, st *State) []int {
+	live := st.Live()
+	L := st.Layout()
+	idxOf := map[H]int{}
+	for i, h := range live {
+		idxOf[h] = i
+	}
+	top := uint8(0)
+	for ro := range L.Nodes {
+		if ro.R > top {
+			top = ro.R
+		}
+	}
+	var cand []RO
+	for ro := range L.Nodes {
+		if !L.IsLeaf[ro] && ro.R+3 > top && ro.R >= 1 {
+			cand = append(cand, ro)
+		}
+	}
+	if len(cand) == 0 {
+		return nil
+	}
+	sortRO(cand)
+	lg := L.Log[cand[g.Intn(len(cand))]]
+	var out []int
+	for s := lg.lo; s < lg.lo+(uint64(1)<<lg.h); s++ {
+		if st.Alive[s] {
+			out = append(out, idxOf[st.Leaves[s]])
+		}
+	}
+	sort.Sort(sort.Reverse(sort.IntSlice(out)))
 	return out
 }
 
